@@ -5,8 +5,9 @@
      match <id> <pattern hex> <name hex>
    tree ::= F | D[<name hex>=<tree>,...]
    Output: M <id>, M <id>#bp, M <id>#cow = model of afero (path.go / match.go as in /repo now),
-           M <id>#std = model of path/filepath, S <id>[#bp|#cow] = what the property demands of afero
-           (the std model's result; for glob only when the pattern is well-formed without escapes). *)
+           M <id>#std = model of path/filepath, S <id> (S <id>#bp for rwalk/rglob) = what the property
+           demands of afero: the std model's result; for glob only when the pattern is well-formed without
+           escapes.  The wrappers #bp/#cow are judged by the Go-side oracle against filepath itself. *)
 open Model
 open Driver_common
 
@@ -72,7 +73,7 @@ let run_walk variants toks =
     let a = walk_s (run_afero_repo t r tb) and s = walk_s (run_std t r tb) in
     List.iter (fun v -> Printf.printf "M %s%s %s\n" id v a) variants;
     Printf.printf "M %s#std %s\n" id s;
-    List.iter (fun v -> Printf.printf "S %s%s %s\n" id v s) variants
+    Printf.printf "S %s%s %s\n" id (List.hd variants) s
   | _ -> failwith "bad walk line"
 
 let run_glob variants toks =
@@ -82,7 +83,7 @@ let run_glob variants toks =
     let a = glob_s (afero_glob t p) and s = glob_s (std_glob t p) in
     List.iter (fun v -> Printf.printf "M %s%s %s\n" id v a) variants;
     Printf.printf "M %s#std %s\n" id s;
-    if well_formed p then List.iter (fun v -> Printf.printf "S %s%s %s\n" id v s) variants
+    if well_formed p then Printf.printf "S %s%s %s\n" id (List.hd variants) s
   | _ -> failwith "bad glob line"
 
 let run_match toks =
